@@ -250,11 +250,31 @@ def v4(run, project):
     cc = vals.functions().get("tpm_enum._tpm_enum.class_contains")
     if cc is None:
         raise AnalysisError("C04: tpm_enum.class_contains not found")
-    rets = [s for s in walk_no_nested(cc) if isinstance(s, ast.Return)]
     vv = cc.args.args[1].arg
-    ok = len(rets) == 1 and norm(rets[0].value) == f"any((value == attr or (hasattr(attr, '__contains__') and value in attr) for attr in cls))".replace("value", vv)
+    # a scan of the members - `any(P(m) for m in cls)` or `for m in cls: if P(m): return True ... return False` - whose
+    # predicate P is "equal to the member, or the member is a container (guard first) that contains the value"; any other
+    # way of answering (an index, a cached set ...) is not followed by the model: analysis error, not a verdict
+    body = [s_ for s_ in cc.body if not (isinstance(s_, ast.Expr) and isinstance(s_.value, ast.Constant))]
+    pred = var = src = None
+    if len(body) == 1 and isinstance(body[0], ast.Return) and isinstance(body[0].value, ast.Call) and call_name(body[0].value) == "any" \
+            and len(body[0].value.args) == 1 and isinstance(body[0].value.args[0], (ast.GeneratorExp, ast.ListComp)) \
+            and len(body[0].value.args[0].generators) == 1 and not body[0].value.args[0].generators[0].ifs \
+            and isinstance(body[0].value.args[0].generators[0].target, ast.Name):
+        g_ = body[0].value.args[0]
+        pred, var, src = g_.elt, g_.generators[0].target.id, g_.generators[0].iter
+    elif len(body) == 2 and isinstance(body[0], ast.For) and isinstance(body[0].target, ast.Name) and not body[0].orelse \
+            and len(body[0].body) == 1 and isinstance(body[0].body[0], ast.If) and not body[0].body[0].orelse \
+            and [norm(x) for x in body[0].body[0].body] == ["return True"] and norm(body[1]) == "return False":
+        pred, var, src = body[0].body[0].test, body[0].target.id, body[0].iter
+    if pred is None or norm(src) not in ("cls", "iter(cls)", "cls.class_iter()"):
+        raise AnalysisError("C04: the membership test of tpm_enum (class_contains) is not a scan of the enum's members: an indexed or cached "
+                            "lookup is a rewrite of what the layout model (E1) mirrors and is not followed - DESIGN section 7")
+    eqs = (f"{vv} == {var}", f"{var} == {vv}")
+    conts = (f"hasattr({var}, '__contains__') and {vv} in {var}", f"isinstance({var}, NamedRange) and {vv} in {var}")
+    ds = [norm(x) for x in pred.values] if isinstance(pred, ast.BoolOp) and isinstance(pred.op, ast.Or) else [norm(pred)]
+    ok = len(ds) == 2 and ((ds[0] in eqs and ds[1] in conts) or (ds[1] in eqs and ds[0] in conts))
     run.ob("V4", ok, "enum class membership = equality with or containment in a member",
-           f"class_contains returns `{norm(rets[0].value) if rets else '?'}`", module=vals, node=cc, func="tpm_enum.class_contains")
+           f"class_contains decides per member with `{norm(pred)}`", module=vals, node=cc, func="tpm_enum.class_contains")
 
 
 def valid_values_get(run, rule, vals, g):
